@@ -207,7 +207,7 @@ def model_round(tree, hashes, inc, t_now, order_key):
 def c11(ctx):
     quick = ctx.tier == 'quick'
     r = ctx.rng('c11')
-    n = 300 if quick else 4000
+    n = 600 if quick else 4000
     stats = {'rounds': 0, 'rounds_premise_ok': 0, 'rounds_premise_violated': 0, 'midscan_injections': 0, 'tz': {},
              'model_rounds_compared': 0, 'incremental_equals_full': 0, 'skips_observed': 0}
     reqs = []
